@@ -489,3 +489,91 @@ pub fn gen_content(rng: &mut Rng, o: &GenOpts) -> RefArchive {
     }
     m
 }
+
+
+/// Contents built around table-size thresholds (C01/C02 domain): exact pointer-table entry counts
+/// and label counts at and around 128/256/512/4096/65536, and text sections longer than 64 KiB in
+/// which late strings are referenced again. `which` enumerates the variants; returns None past the end.
+pub const THRESHOLD_VARIANTS: usize = 13 + 12 + 3;
+
+pub fn threshold_content(rng: &mut Rng, which: usize, cstrings: bool) -> Option<(String, RefArchive)> {
+    use crate::refs::strings::{gen_ident, gen_sjis};
+    const PTRS: [usize; 13] = [127, 128, 129, 255, 256, 257, 511, 512, 513, 4095, 4096, 4097, 5000];
+    const LABELS: [usize; 12] = [127, 128, 129, 255, 256, 257, 4096, 4097, 65535, 65536, 65537, 70000];
+    let mut m = RefArchive::new(rng.bool());
+    if which < PTRS.len() {
+        // exactly K entries in the pointer table (pointers + strings [+ c-strings])
+        let k = PTRS[which];
+        let cells = k + rng.range(0, 3);
+        let extra = if rng.chance(1, 3) { rng.range(1, 3) } else { 0 };
+        m.data = rng.bytes(cells * 4 + extra);
+        let pool: Vec<String> = (0..5).map(|_| gen_sjis(rng, 6)).collect();
+        let mut order: Vec<usize> = (0..cells).collect();
+        rng.shuffle(&mut order);
+        for (i, c) in order.into_iter().take(k).enumerate() {
+            match (i + which) % if cstrings { 3 } else { 2 } {
+                0 => {
+                    m.ptrs.insert(c * 4, (rng.range(0, m.data.len()) / 4) * 4);
+                }
+                1 => {
+                    m.text.insert(c * 4, rng.pick(&pool).clone());
+                }
+                _ => {
+                    m.cstr.insert(c * 4, rng.pick(&pool).clone());
+                }
+            }
+        }
+        let nl = *rng.pick(&[0usize, 1, 127, 128, 129]);
+        for i in 0..nl {
+            let addr = (rng.range(0, m.data.len()) / 4) * 4;
+            m.labels.entry(addr).or_default().push(format!("L{}_{}", i % 7, gen_ident(rng, 3)));
+        }
+        return Some((format!("pointer_table_of_{}_entries", k), m));
+    }
+    let which = which - PTRS.len();
+    if which < LABELS.len() {
+        let k = LABELS[which];
+        let cells = rng.range(1, 40);
+        m.data = rng.bytes(cells * 4);
+        let names: Vec<String> = (0..rng.range(1, 9)).map(|_| gen_ident(rng, 6)).collect();
+        for i in 0..k {
+            let addr = match rng.below(6) {
+                0 => m.data.len(),
+                1 => rng.range(0, m.data.len()),
+                _ => (rng.range(0, m.data.len()) / 4) * 4,
+            };
+            let name = if i % 3 == 0 { format!("N{}", i) } else { rng.pick(&names).clone() };
+            m.labels.entry(addr).or_default().push(name);
+        }
+        if rng.bool() {
+            m.text.insert(0, "s".to_string());
+        }
+        return Some((format!("label_table_of_{}_entries", k), m));
+    }
+    let which = which - LABELS.len();
+    if which < 3 {
+        // text section longer than 64 KiB; strings and names stored late are referenced again
+        let nstr = 300 + which * 40;
+        let strs: Vec<String> = (0..nstr).map(|i| format!("{:04}_{}", i, "x".repeat(200 + (i * 7) % 60))).collect();
+        let cells = nstr * 2 + 8;
+        m.data = rng.bytes(cells * 4);
+        for (i, s) in strs.iter().enumerate() {
+            m.text.insert(i * 4, s.clone());
+        }
+        // second references, in another order
+        for i in 0..nstr {
+            let j = (i * 7 + 3) % nstr;
+            m.text.insert((nstr + i) * 4, strs[j].clone());
+        }
+        // label names equal to late strings, and late fresh names used twice
+        for i in 0..40 {
+            let a = ((i * 13) % cells) * 4;
+            m.labels.entry(a).or_default().push(strs[nstr - 1 - i].clone());
+            let fresh = format!("late_name_{}_{}", i, "y".repeat(100));
+            m.labels.entry(a).or_default().push(fresh.clone());
+            m.labels.entry(((i * 29 + 5) % cells) * 4).or_default().push(fresh);
+        }
+        return Some((format!("text_section_beyond_64KiB_variant_{}", which), m));
+    }
+    None
+}
